@@ -24,12 +24,11 @@ theorem steps_log_suffix (b : Bool) (n : Nat) : ∀ σ, ∃ es, (steps b n σ).l
 
 /-- what the clock invariant yields for the log of ANY reachable state (inside or outside a
 critical section) of a quiet run of the repaired code -/
-theorem quiet_log_facts {σ : St} (h : Inv σ) (hd : σ.dirty = false) (hb : σ.badArg = false) :
+theorem quiet_log_facts {σ : St} (h : Inv σ) (hd : σ.dirty = false) :
     ∃ l, (∃ es, l = es ++ σ.log) ∧
       (∀ id t b cs, Event.fired id t b cs ∈ l → t = b + cs * 10000) ∧ Ordered l := by
-  rcases h with h1 | h1 | hc | ⟨_, n, hn⟩
+  rcases h with h1 | hc | ⟨_, n, hn⟩
   · rw [hd] at h1; exact absurd h1 (by simp)
-  · rw [hb] at h1; exact absurd h1 (by simp)
   · exact ⟨σ.log, ⟨[], rfl⟩, fun id t b cs hh => (hc.exact id t b cs hh).1, hc.ordered⟩
   · obtain ⟨es, hes⟩ := steps_log_suffix false n σ
     exact ⟨(steps false n σ).log, ⟨es, hes⟩, fun id t b cs hh => (hn.exact id t b cs hh).1, hn.ordered⟩
@@ -40,11 +39,10 @@ theorem ordered_suffix : ∀ (es l : List Event), Ordered (es ++ l) → Ordered 
   | nil => intro l h; exact h
   | cons a as ih => intro l h; exact ih l h.1
 
-theorem clock_of_quiet {σ : St} (h : Inv σ) (hd : σ.dirty = false) (hb : σ.badArg = false)
+theorem clock_of_quiet {σ : St} (h : Inv σ) (hd : σ.dirty = false)
     (hc : σ.inCrit = false) : Clock σ := by
-  rcases h with h1 | h1 | h1 | ⟨h1, _⟩
+  rcases h with h1 | h1 | ⟨h1, _⟩
   · rw [hd] at h1; exact absurd h1 (by simp)
-  · rw [hb] at h1; exact absurd h1 (by simp)
   · exact h1
   · rw [hc] at h1; exact absurd h1 (by simp)
 
